@@ -213,6 +213,44 @@ def power_pair_specs(exponents: Sequence[int] = (2, 3, -1, -2), per_dim: int = 0
     return out
 
 
+def cancelling_pair_specs(per_dim: int = 5) -> List[Tuple[Any, Any]]:
+    """Sources in which a named unit of a power dimension (area, volume, ...) meets the base units
+    that make up its inverse -- cup / in**3 -- alone (target: the bare number) or times one more
+    unit (target: another unit of that unit's dimension).  What is left of the source after
+    cancelling is where a planner can drop a factor."""
+    import measured
+    from measured import One
+
+    units = families.offset_free(families.named_units())
+    bd = families.by_dimension(units)
+    fundamentals = {}
+    for dim, us in bd.items():
+        nz = [(i, e) for i, e in enumerate(dim.exponents) if e]
+        if len(nz) == 1 and nz[0][1] == 1:
+            fundamentals[nz[0][0]] = us
+    out: List[Tuple[Any, Any]] = []
+    for dim, us in bd.items():
+        nz = [(i, e) for i, e in enumerate(dim.exponents) if e]
+        if len(nz) != 1 or abs(nz[0][1]) < 2 or nz[0][0] not in fundamentals:
+            continue
+        i, e = nz[0]
+        bases = fundamentals[i]
+        pick = bases[:per_dim]
+        for u in us[:3 * per_dim]:
+            if len(u.factors) != 1 or u.prefix.base:
+                continue
+            for b in pick:
+                src = u / b ** e
+                if src is not One and src.dimension is measured.Number:
+                    out.append((families.spec_of(src), families.spec_of(One)))
+                extra = pick[0] if pick[0] is not b else pick[1 % len(pick)]
+                other = pick[-1] if pick[-1] is not extra else pick[0]
+                src2 = u * extra / b ** e
+                if src2.dimension is extra.dimension and other is not src2:
+                    out.append((families.spec_of(src2), families.spec_of(other)))
+    return out
+
+
 def oracle_with_readings() -> Any:
     """The oracle plus one alternative reading per declaration of every C09 core."""
     orc = families.orc()
